@@ -1419,3 +1419,14 @@ VP("C13-R3C-mut-adopt-no-parent", "C15", "flag form of adoption: a configuration
    "            sub_config = value\n            sub_config._parent = self\n", "            sub_config = value\n")
 VP("C13-R3C-mut-dynamic-key-not-told", "C01", "dynamic field registered under the key but not told its key", "C13-R3C", CORE,
    "            field = AnyField()\n            field.__setkey__(self._schema, key)\n", "            field = AnyField()\n")
+V("C13-to-tree-merges-into-schema-table", "C13", "to_tree merges the dynamic fields into the schema's own table", CORE,
+  "        fields: Dict[str, BaseField] = dict(self._schema._fields)\n        fields.update(self._fields)",
+  "        fields: Dict[str, BaseField] = self._schema._fields\n        fields.update(self._fields)")
+VP("C13-R3D-mut-unset-includes-given", "C12", "two-stage constructor: defaults applied to every field, keywords overwritten", "C13-R3D", CORE,
+   "            field for key, field in schema._fields.items() if key not in data\n", "            field for key, field in schema._fields.items()\n")
+VP("C13-R3D-mut-extend-helper-no-identity", "C01", "helper form of the fast path without the field identity test", "C13-R3D", "cincoconfig/fields/list_field.py",
+   "        if isinstance(iterable, ListProxy) and iterable.item_field is self.item_field:\n            return iterable", "        if isinstance(iterable, ListProxy):\n            return iterable")
+VP("C13-R3D-mut-all-fields-aliases-schema", "C13", "helper returning the schema's table itself, updated in place", "C13-R3D", CORE,
+   "        return {**self._schema._fields, **self._fields}", "        merged = self._schema._fields\n        merged.update(self._fields)\n        return merged")
+V("C12-ctor-defaults-overwrite-keywords", "C12", "constructor stores the default for every field after the keywords were applied", CORE,
+  "            if key in data:\n                continue\n\n            field.__setdefault__(self)", "            field.__setdefault__(self)")
